@@ -4,6 +4,7 @@ from __future__ import annotations
 import collections
 import json
 import os
+import shlex
 import shutil
 import subprocess
 import tempfile
@@ -56,10 +57,18 @@ def make_tree(root):
     return cmd_cwd, hook_cwd
 
 
+def rand_cluster(r, mod="calendar"):
+    """a cluster of short options as CPython's getopt reads it: flag letters, then possibly an option that takes the rest
+    of the word (or the next word) as its value"""
+    letters = "".join(r.pick("BuOEsqIixdvbSRP") for _ in range(r.randint(0, 3)))
+    tail = r.pick(["", "", "W", "Wd", "Werror::SyntaxWarning", "X", "Xdev", "Xpycache_prefix=x", "c", "cprint('CODE')", "m", "m" + mod, "h", "V", "x", "xW", "xWd", "xX", "xXdev"])
+    return "-" + letters + tail if (letters or tail) else "-B"
+
+
 def gen_tokens(r):
     toks = [r.pick(["python3", "python", "python3.12"])]
     for _ in range(r.randint(0, 3)):
-        toks.append(r.pick(OPTS))
+        toks.append(r.pick(OPTS) if r.chance(0.6) else rand_cluster(r))
     if r.chance(0.85):
         toks.append(r.pick(FILES))
         for _ in range(r.randint(0, 3)):
@@ -105,7 +114,8 @@ def corr_classify(model, r, n):
     return acc.result()
 
 
-MARK = "import sys\nprint('RAN', __file__.split('/')[-1], sys.argv[1:])\n"
+# the first line is a comment: -x (skip the first source line) leaves the marker intact
+MARK = "#!marker\nimport sys\nprint('RAN', __file__.split('/')[-1], sys.argv[1:])\n"
 
 
 def corr_runs(model, r, n):
@@ -118,7 +128,7 @@ def corr_runs(model, r, n):
         opts = ["-B", "-u", "-O", "-W", "ignore", "-X", "dev", "-E", "-s", "-q", "-c", "print('CODE')", "-m", "a", "-", "-h", "--version", "-V", "-x", "--help", "-VV", "-Wd", "-I", "-BW", "-Bc", "-cprint('CODE')", "-ma", "-Bm", "-BX", "-Bh", "-BV", "-hB", "-IW", "-Bmb", "-uXdev", "-Bcprint('CODE')"]
         jobs = []
         for _ in range(n):
-            args = [r.pick(opts) for _ in range(r.randint(0, 3))]
+            args = [(r.pick(opts) if r.chance(0.7) else rand_cluster(r, mod="a")) for _ in range(r.randint(0, 3))]
             if r.chance(0.85):
                 args.append(r.pick(["a.py", "b.py"]))
                 args += [r.pick(opts + ["arg"]) for _ in range(r.randint(0, 2))]
@@ -157,6 +167,10 @@ def corr_runs(model, r, n):
                 # -m a / -m a.py / -m b.x import (execute) a.py resp. b.py before anything else
                 root_mod = (rep.get("name") or "").split(".")[0]
                 got = {"runs": "script", "word": root_mod + ".py"} if root_mod in ("a", "b") else {"runs": "other"}
+            if impl["runs"] == "stdin" and rep.get("runs") != "stdin" and any(a.startswith("-") and not a.startswith("--") and "i" in a[1:] for a in args):
+                # -i: after the program (or its failure: a missing file, a NameError) the interpreter reads our stdin
+                acc.stats["inspect_after_failure"] += 1
+                continue
             if impl["runs"] == "other" or (rep.get("runs") == "interactive"):
                 # an interpreter error or the interactive prompt on our closed stdin: not a disagreement about which program runs
                 acc.stats["interpreter_error_or_interactive"] += 1
@@ -389,7 +403,9 @@ def search(ctx):
                 stats["executed"] += 1
                 if rep.get("events"):
                     stats["audit_events"] += 1
-                    if len(vios) < 8:
+                    # at most two reports per access path (known findings must not crowd out new ones), 40 in all
+                    stats["vio_path:" + label] += 1
+                    if stats["vio_path:" + label] <= 2 and len(vios) < 40:
                         vios.append({"input": {"command": cmd, "script": source, "cwd": "<scratch>"}, "access_path": label, "observed": {"verdict": "allow", "audit_events": rep["events"][:4]}, "required": "an auto-approved script raises no file/process/network/dynamic-code audit event; raised: " + rep["events"][0], "oracle": "audit-hook"})
                 elif len(samples) < 3:
                     samples.append({"command": cmd, "access_path": label, "verdict": "allow", "audit_events": 0})
@@ -403,6 +419,36 @@ def search(ctx):
             stats["evaluations"] += 1
             if dec.action == "allow":
                 vios.append({"input": {"command": cmd, "cwd": "<scratch with safe.py, bad.py>"}, "observed": {"verdict": "allow", "reason": dec.reason}, "required": "this command runs bad.py / code that was not analysed: never allow", "oracle": "analysed-file-is-run"})
+        # the text that runs is the text that was analysed: guard.py is inert as a whole, but not when its first line is skipped
+        gd = os.path.join(root, "guard")
+        os.makedirs(gd)
+        open(os.path.join(gd, "guard.py"), "w").write('x = """\nprint("@@SKIPPED-LINE" + "-RAN@@") #"""\n')
+        gjobs = []
+        for _ in range(ctx.scale(250, 6000) * (3 if ctx.broken else 1)):
+            opts = [(rand_cluster(r) if r.chance(0.7) else r.pick(OPTS)) for _ in range(r.randint(1, 3))]
+            if any(("c" in o[1:] or "m" in o[1:] or o in ("-", "-i")) and o.startswith("-") and not o.startswith("--") for o in opts):
+                continue  # code / module / stdin / interactive forms are the grammar correspondence's business
+            cmd = "python3 " + " ".join(shlex.quote(o) for o in opts) + " guard.py"
+            dec = analyze(cmd, Config(), Path(gd))
+            stats["evaluations"] += 1
+            stats["guard:" + dec.action] += 1
+            if dec.action == "allow":
+                gjobs.append((cmd, opts))
+
+        def grun(job):
+            cmd, opts = job
+            try:
+                p = subprocess.run([PY] + opts + ["guard.py"], cwd=gd, capture_output=True, timeout=20, stdin=subprocess.DEVNULL, env={"PATH": "/usr/bin:/bin", "HOME": gd})
+                return job, p.stdout.decode("utf-8", "replace")
+            except subprocess.TimeoutExpired:
+                return job, ""
+
+        with ThreadPoolExecutor(12) as ex:
+            for (cmd, opts), text in ex.map(grun, gjobs):
+                stats["guard_executed"] += 1
+                if "@@SKIPPED-LINE-RAN@@" in text and stats["guard_violations"] < 4:
+                    stats["guard_violations"] += 1
+                    vios.insert(0, {"input": {"command": cmd, "cwd": "<scratch with guard.py: a string literal as a whole, a print when line 1 is skipped>"}, "observed": {"verdict": "allow", "stdout": text[:200]}, "required": "the interpreter ran text that is not the text Dippy analysed (first line skipped): never allow", "oracle": "analysed-text-is-run-text"})
     finally:
         shutil.rmtree(root, ignore_errors=True)
     return {"violations": vios, "evaluations": stats["evaluations"], "distinct_nontrivial": stats["executed"], "stats": dict(stats), "samples": samples, "oracle": "audit hook (PEP 578) vetoing file/process/network/ctypes/exec/compile/unlisted-import events in a child interpreter; marker commands"}
